@@ -2,6 +2,7 @@ package main
 
 import (
 	"fmt"
+	"go/token"
 	"strings"
 
 	"golang.org/x/tools/go/ssa"
@@ -9,7 +10,7 @@ import (
 
 func init() {
 	register(&propDef{
-		ID: "C12", Level: "other", Run: withShared(runC12, share{"C13", runC13, ruleIs("min-raise-init")}),
+		ID: "C12", Level: "other", Run: withShared(runC12, share{"C13", runC13, ruleIs("min-raise-init")}, share{"C11", runC11, ruleIs("offer-table")}),
 		Explanation: "Raise(x) is extracted as a decision table (refused / delegated to Call / delegated to Allin / carried out) and compared with the minimum-raise rule on a bounded grid including negative and zero amounts; on the carried-out rows PreviousRaiseSize' = x - CurrentWager and the chip mover is paid x - Wager as a wager. For every offered action, the amount handed to the chip mover is non-negative for every caller-supplied argument (grid with negative parameters, state constraints only on state). Every in-round store to Status.CurrentWager is dominated by old < new, and raising the wager to match makes the payer the current raiser. Pot-limit rows are only checked for amount sign.",
 		Trusted:     commonTrusted,
 		Assumptions: []string{"state constraints on the grid: chip quantities >= 0, StackSize = InitialStackSize - Wager, Wager <= CurrentWager", "grid -3..6 for parameters, 0..6 for state (0..9 thorough)"},
@@ -59,6 +60,7 @@ func runC12(c *Ctx) {
 			}
 			fn := am.Fn
 			s := newSumm(p, 0)
+			s.HelperInline = bodyHelpers(fn, mover)
 			paths, _ := s.Function(fn)
 			var viol []string
 			nHere := 0
@@ -233,6 +235,7 @@ func runRaiseTable(c *Ctx, fn, mover *ssa.Function, byConst map[string]*ssa.Func
 	p := c.P
 	c.touch(fnKey(fn))
 	s := newSumm(p, 0)
+	s.HelperInline = bodyHelpers(fn, mover)
 	paths, cut := s.Function(fn)
 	if cut != "" {
 		c.undecided("raise-table", fnKey(fn), p.FnPos(fn), "summary cut: "+cut)
@@ -372,6 +375,34 @@ func checkAmountNonNeg(c *Ctx, ea *engineAnchors) {
 		return
 	}
 	acts := c.actionMethods(ea)
+	// the grid below reasons over the integers; machine arithmetic agrees with it only while the
+	// caller-supplied amount has been bounded from below: no arithmetic on the raw amount before a
+	// refusing comparison of the amount itself ("x - w < 0" wraps for x near the minimum int64,
+	// "x < w" does not)
+	for _, am := range acts {
+		fn := am.Fn
+		for _, prm := range fn.Params[1:] {
+			if !isIntType(prm.Type()) {
+				continue
+			}
+			var bad []string
+			for _, ref := range *prm.Referrers() {
+				bo, ok := ref.(*ssa.BinOp)
+				if !ok {
+					continue
+				}
+				switch bo.Op {
+				case token.ADD, token.SUB, token.MUL:
+				default:
+					continue
+				}
+				if !lowerBounded(bo, prm) {
+					bad = append(bad, "arithmetic on the raw amount at "+p.InstrPos(bo)+" before any comparison bounds it from below: the result can wrap")
+				}
+			}
+			c.check(len(bad) == 0, "amount-nonneg", fnKey(fn)+"#no-wrap", p.FnPos(fn), "the amount is compared itself before it enters any arithmetic", "a guard on the amount can be defeated by integer wrap-around", uniq(bad, 2)...)
+		}
+	}
 	offered, _, _ := c.offeredActions(ea)
 	hi := int64(6)
 	if c.Tier == "thorough" {
@@ -385,6 +416,7 @@ func checkAmountNonNeg(c *Ctx, ea *engineAnchors) {
 		}
 		fn := am.Fn
 		s := newSumm(p, 0)
+		s.HelperInline = bodyHelpers(fn, mover)
 		paths, cut := s.Function(fn)
 		if cut != "" {
 			c.undecided("amount-nonneg", fnKey(fn), p.FnPos(fn), "summary cut: "+cut)
@@ -472,4 +504,55 @@ func checkAmountNonNeg(c *Ctx, ea *engineAnchors) {
 	}
 	c.floor("amount-nonneg", "paying actions", nAmt, 4)
 
+}
+
+// lowerBounded: the instruction is dominated by the edge of a comparison of the raw parameter that
+// bounds it from below (prm < v false, prm <= v false, prm >= v true, prm > v true, v <= prm ...).
+func lowerBounded(use ssa.Instruction, prm *ssa.Parameter) bool {
+	fn := use.Parent()
+	for _, b := range fn.Blocks {
+		ifi, ok := b.Instrs[len(b.Instrs)-1].(*ssa.If)
+		if !ok {
+			continue
+		}
+		cmp, ok := ifi.Cond.(*ssa.BinOp)
+		if !ok {
+			continue
+		}
+		var okSucc *ssa.BasicBlock
+		left := cmp.X == ssa.Value(prm)
+		right := cmp.Y == ssa.Value(prm)
+		if !left && !right {
+			continue
+		}
+		op := cmp.Op
+		if right { // v op prm  ==  prm op' v
+			switch op {
+			case token.LSS:
+				op = token.GTR
+			case token.LEQ:
+				op = token.GEQ
+			case token.GTR:
+				op = token.LSS
+			case token.GEQ:
+				op = token.LEQ
+			}
+		}
+		switch op {
+		case token.LSS, token.LEQ: // prm < v: the false edge gives prm >= v
+			okSucc = b.Succs[1]
+		case token.GTR, token.GEQ: // prm > v: the true edge
+			okSucc = b.Succs[0]
+		}
+		if okSucc == nil {
+			continue
+		}
+		if okSucc == use.Block() || okSucc.Dominates(use.Block()) {
+			// the edge must be the only way into that block
+			if len(okSucc.Preds) == 1 {
+				return true
+			}
+		}
+	}
+	return false
 }
